@@ -140,7 +140,12 @@ def run(ctx):
         "derived rule table (abstract interpretation of every rule constructor chain) is checked against the loop ranges."
     )
     check = p.function("vsg.rule_list:rule_list.check_rules")
-    fix = p.function("vsg.rule_list:rule_list.fix")
+    fix_orig = p.function("vsg.rule_list:rule_list.fix")
+    from ..model import inline_helpers
+
+    # the per-rule body of the loops may live in a helper method (extract-method refactoring): loop shape and
+    # pipeline are decided on the view with such helpers inlined
+    fix = inline_helpers(p, fix_orig, toward={"fix", "analyze"})
     cph, csb = _loop_info(r, check, "check")
     fph, fsb = _loop_info(r, fix, "fix")
     if cph is None or fph is None:
@@ -250,7 +255,7 @@ def run(ctx):
     _snapshots(r, p, cg)
     _gate(r, p, check, cph, csb)
     _table(r, rt, cp, ca)
-    _forwarding(r, p, cg, check, fix)
+    _forwarding(r, p, cg, check, fix_orig)
     # a phase assigned by configuration is the phase the selectors see: the configuration readers store it as given
     from . import c12 as _c12
 
